@@ -30,6 +30,13 @@ static char const *const CTL_OP_NAMES[] = {"step", "steps", "setpoint", "retune"
                                            "input", "inputs", "fzero", "quiet", "gen", "setnum", "setden"};
 
 static inline uint64_t mag64(int64_t v) { return (uint64_t)(v < 0 ? -v : v); }
+// The engine is written against the library's real type.  In the default build R is double; the alternative build
+// (-DA_SIZE_REAL=4) makes it float.  Values that are handed to the library are always exactly representable in R
+// (they are generated with at most 11 significant bits, or rounded to R first), values read back are promoted exactly.
+typedef a_real R;
+static constexpr int MANT = sizeof(R) == 4 ? 24 : 53;      // significand bits of R
+static constexpr bool R_IS_DOUBLE = sizeof(R) == 8;
+static inline double toR(double x) { return (double)(R)x; } // round to the library's precision
 // exact regime: multiples of 1/8 within +-64.  general regime: m * 2^e, |m| < 1024, e in [-24, 20]
 static inline double value_of(int regime, int64_t m, int64_t e)
 {
@@ -38,7 +45,7 @@ static inline double value_of(int regime, int64_t m, int64_t e)
     int ex = (int)(mag64(e) % 45) - 24;
     return std::ldexp(mant, ex);
 }
-static inline double ulp_of(double x) { x = std::fabs(x); if (x < DBL_MIN) return DBL_TRUE_MIN; int e; std::frexp(x, &e); return std::ldexp(1.0, e - 53); }
+static inline double ulp_of(double x) { x = std::fabs(x); double const mn = R_IS_DOUBLE ? DBL_MIN : (double)FLT_MIN; if (x < mn) return R_IS_DOUBLE ? DBL_TRUE_MIN : (double)FLT_TRUE_MIN; int e; std::frexp(x, &e); return std::ldexp(1.0, e - MANT); } // one unit in the last place of R
 static inline bool finite_all(double const *v, size_t n) { for (size_t i = 0; i < n; ++i) if (!std::isfinite(v[i])) return false; return true; }
 static inline uint64_t bits_of(double d) { uint64_t u; memcpy(&u, &d, 8); return u; }
 static inline double sat(double x, double lo, double hi) { return lo < x ? (x < hi ? x : hi) : lo; }
@@ -63,7 +70,7 @@ struct PidSim
     a_pid *pair_inc = nullptr; bool pair_valid = false;
     // fuzzy tables (shared, harness blocks of exact size)
     unsigned order = 3, nfuzz = 3; int family = 0; unsigned opr = 0;
-    double *me = nullptr, *mec = nullptr, *mkp = nullptr, *mki = nullptr, *mkd = nullptr;
+    R *me = nullptr, *mec = nullptr, *mkp = nullptr, *mki = nullptr, *mkd = nullptr;
     // environment
     double setp = 0, y = 0, sensed = 0, last_delivered = 0;
     int fault_kind = 0, fault_left = 0; double fault_val = 0;
@@ -86,9 +93,9 @@ struct PidSim
         unsigned const n = order;
         // membership tables: n entries of (type, params...), terminated implicitly by nrule
         std::vector<double> t;
-        double const R = 4.0;
-        auto centre = [&](int i) { return n == 1 ? 0.0 : -R + 2 * R * (double)i / (double)(n - 1); };
-        double const sp = n == 1 ? R : 2 * R / (double)(n - 1);
+        double const RANGE = 4.0;
+        auto centre = [&](int i) { return n == 1 ? 0.0 : -RANGE + 2 * RANGE * (double)i / (double)(n - 1); };
+        double const sp = n == 1 ? RANGE : 2 * RANGE / (double)(n - 1);
         for (unsigned i = 0; i < n; ++i)
         {
             double ci = centre((int)i), lo = ci - sp, hi = ci + sp;
@@ -121,11 +128,11 @@ struct PidSim
                 break;
             }
         }
-        me = (double *)SA.halloc(t.size() * sizeof(double)); memcpy(me, t.data(), t.size() * sizeof(double));
-        mec = (double *)SA.halloc(t.size() * sizeof(double));
-        for (size_t i = 0; i < t.size(); ++i) mec[i] = t[i]; // same family for the error change, scaled by 2 below where it is a position
-        mkp = (double *)SA.halloc(n * n * sizeof(double)); mki = (double *)SA.halloc(n * n * sizeof(double)); mkd = (double *)SA.halloc(n * n * sizeof(double));
-        for (unsigned i = 0; i < n * n; ++i) { mkp[i] = tabval(i, 32); mki[i] = std::fabs(tabval(1000 + i, 4)); /* effective ki = base + weighted mean must stay >= 0 */ mkd[i] = tabval(2000 + i, 8); }
+        me = (R *)SA.halloc(t.size() * sizeof(R)); for (size_t i = 0; i < t.size(); ++i) me[i] = (R)t[i];
+        mec = (R *)SA.halloc(t.size() * sizeof(R));
+        for (size_t i = 0; i < t.size(); ++i) mec[i] = (R)t[i]; // same family for the error change, scaled by 2 below where it is a position
+        mkp = (R *)SA.halloc(n * n * sizeof(R)); mki = (R *)SA.halloc(n * n * sizeof(R)); mkd = (R *)SA.halloc(n * n * sizeof(R));
+        for (unsigned i = 0; i < n * n; ++i) { mkp[i] = (R)tabval(i, 32); mki[i] = (R)std::fabs(tabval(1000 + i, 4)); /* effective ki = base + weighted mean must stay >= 0 */ mkd[i] = (R)tabval(2000 + i, 8); }
         // Ruspini-style partitions (tri, trap with quarter shoulders) activate at most two sets at once
         nfuzz = (family == 0 || family == 6) ? (n < 2 ? n : 2) : n;
         if (family == 1) nfuzz = n < 2 ? n : 2;
@@ -255,13 +262,13 @@ struct PidSim
     {
         switch (type) { case A_MF_GAUSS: case A_MF_SIG: case A_MF_LINS: case A_MF_LINZ: case A_MF_S: case A_MF_Z: return 2; case A_MF_GBELL: case A_MF_TRI: return 3; default: return 4; }
     }
-    void ref_memberships(double x, double const *tab, std::vector<double> &mu)
+    void ref_memberships(double x, R const *tab, std::vector<double> &mu)
     {
         mu.assign(order, 0.0);
         for (unsigned i = 0; i < order; ++i)
         {
             int const type = (int)*tab++;
-            mu[i] = a_mf((unsigned)type, x, tab);
+            mu[i] = a_mf((unsigned)type, (R)x, tab);
             tab += mf_params(type);
         }
     }
@@ -274,18 +281,18 @@ struct PidSim
         amb = false;
         long double sw = 0, skp = 0, ski = 0, skd = 0;
         size_t ae = 0, aec = 0;
-        for (unsigned i = 0; i < order; ++i) { if (me_[i] > 0 && me_[i] < 1e-12) amb = true; if (me_[i] > DBL_EPSILON) ++ae; }
-        for (unsigned i = 0; i < order; ++i) { if (mec_[i] > 0 && mec_[i] < 1e-12) amb = true; if (mec_[i] > DBL_EPSILON) ++aec; }
+        for (unsigned i = 0; i < order; ++i) { if (me_[i] > 0 && me_[i] < 4096 * (double)A_REAL_EPSILON) amb = true; if (me_[i] > (double)A_REAL_EPSILON) ++ae; }
+        for (unsigned i = 0; i < order; ++i) { if (mec_[i] > 0 && mec_[i] < 4096 * (double)A_REAL_EPSILON) amb = true; if (mec_[i] > (double)A_REAL_EPSILON) ++aec; }
         if (ae && aec)
             for (unsigned i = 0; i < order; ++i)
                 for (unsigned j = 0; j < order; ++j)
                 {
-                    if (!(me_[i] > DBL_EPSILON) || !(mec_[j] > DBL_EPSILON)) continue;
+                    if (!(me_[i] > (double)A_REAL_EPSILON) || !(mec_[j] > (double)A_REAL_EPSILON)) continue;
                     long double const w = ref_opr(opr, me_[i], mec_[j]);
                     sw += w; skp += w * mkp[i * order + j]; ski += w * mki[i * order + j]; skd += w * mkd[i * order + j];
                 }
         if (ae > nfuzz || aec > nfuzz) amb = true; // would overrun the scratch buffer: excluded by construction, never expected
-        if (sw > 0 && sw < 1e-9) amb = true;
+        if (sw > 0 && sw < (R_IS_DOUBLE ? 1e-9 : 1e-3)) amb = true;
         g[0] = kp; g[1] = ki; g[2] = kd;
         if (nulltab & 1) skp = 0; if (nulltab & 2) ski = 0; if (nulltab & 4) skd = 0; // an absent rule base contributes nothing
         if (sw > 0) { g[0] = (double)(kp + skp / sw); g[1] = (double)(ki + ski / sw); g[2] = (double)(kd + skd / sw); }
@@ -312,13 +319,14 @@ struct PidSim
             }
         }
         if (regime == 0) { if (delivered > 64) delivered = 64; if (delivered < -64) delivered = -64; }
+        delivered = toR(delivered);
         last_delivered = delivered;
         char const *name = step_name();
         Unit &m = U[0];
         a_pid *pd = P(m);
         a_pid const before = *pd;
         double fz_want[3] = {0, 0, 0}; bool fz_amb = true;
-        if (ctype == 1) { double const e0 = setp - delivered; ref_fuzzy_gains(e0, e0 - before.err, fz_want, fz_amb); }
+        if (ctype == 1) { double const e0 = (double)(R)((R)setp - (R)delivered); ref_fuzzy_gains(e0, (double)(R)((R)e0 - (R)before.err), fz_want, fz_amb); }
         double const out = step_unit(m, setp, delivered);
         ++c.steps;
         if (ctype == 1 && !fz_amb)
@@ -328,7 +336,7 @@ struct PidSim
             double const span[3] = {4.0, 0.5, 1.0}; // magnitude of the consequent tables
             for (int k = 0; k < 3; ++k)
             {
-                double const tol = 1e-9 * (std::fabs(fz_want[k]) + span[k]);
+                double const tol = std::max(1e-9, 4096 * (double)A_REAL_EPSILON) * (std::fabs(fz_want[k]) + span[k]);
                 if (!(std::fabs(got[k] - fz_want[k]) <= tol)) return c.fail("fuzzy-gain-schedule-wrong", name, "%s after the step is %.17g; base gain plus the weighted mean of the active rules' consequents is %.17g (e=%.17g ec=%.17g operator %u order %u)", GN[k], got[k], fz_want[k], setp - delivered, (setp - delivered) - before.err, opr, order);
             }
             c.st.add("probe.fuzzy_gain_schedule_checked");
@@ -353,7 +361,7 @@ struct PidSim
         if (ctype != 2)
         {
             // the error and the feedback difference are single subtractions of the inputs: take them as the library must
-            double const e_d = setp - delivered, var_d = before.fdb - delivered;
+            double const e_d = (double)(R)((R)setp - (R)delivered), var_d = (double)(R)((R)before.fdb - (R)delivered);
             long double const e = e_d, var = var_d;
             long double gkp = pd->kp, gki = pd->ki, gkd = pd->kd; // for the fuzzy controller: the gains the step left behind
             long double want = 0, scale = 0, wsum = before.sum;
@@ -399,7 +407,7 @@ struct PidSim
             c.site("a_pid_inc");
             double const oi = a_pid_inc(pair_inc, setp, delivered);
             // equality is only claimed while neither clamp has been active in either controller
-            long double const e = (long double)(setp - delivered);
+            long double const e = (long double)(R)((R)setp - (R)delivered);
             bool const integ = ((long double)before.sum > pd->summin && (long double)before.sum < pd->summax) || (long double)before.sum * e < 0;
             long double const raw = (long double)pd->kp * e + (long double)pd->sum + (long double)pd->kd * ((long double)before.fdb - (long double)delivered);
             if (!integ || raw < pd->outmin || raw > pd->outmax || oi <= pair_inc->outmin || oi >= pair_inc->outmax) { pair_valid = false; c.st.add("probe.pos_inc_pair_ended_by_limit"); }
@@ -416,6 +424,7 @@ struct PidSim
         else y = fault_val_free;
         if (regime == 0) { y = std::floor(y * 8) / 8; if (y > 64) y = 64; if (y < -64) y = -64; }
         else { if (!(std::fabs(y) < 1e7)) y = y > 0 ? 1e7 : -1e7; }
+        y = toR(y);
         c.obs(bits_of(out)); c.obs(bits_of(pd->sum));
         uint64_t const flags = (uint64_t)mode | ((uint64_t)(out == pd->outmax) << 2) | ((uint64_t)(out == pd->outmin) << 3) | ((uint64_t)(pd->sum > 0) << 4) | ((uint64_t)(pd->sum < 0) << 5) | ((uint64_t)(pd->err > 0) << 6) | ((uint64_t)(pd->err < 0) << 7) | ((uint64_t)(pd->sum >= pd->summax) << 8) | ((uint64_t)(pd->sum <= pd->summin) << 9) | ((uint64_t)ctype << 10) | ((uint64_t)(fault_left > 0 ? fault_kind : 0) << 12);
         c.st.state(fnv_mix(fnv_mix(FNV0, flags), (uint64_t)(int64_t)std::floor(out > 1e9 ? 1e9 : out < -1e9 ? -1e9 : out)));
@@ -434,6 +443,7 @@ struct PidSim
         if (nulltab && ctype == 1) c.st.add("probe.fuzzy_rule_base_absent");
         kp = value_of(regime, p.knob("kp"), p.knob("kp_e")); ki = std::fabs(value_of(regime, p.knob("ki"), p.knob("ki_e"))); kd = value_of(regime, p.knob("kd"), p.knob("kd_e"));
         if (ctype == 1 && regime == 0) { kp /= 2; kd /= 8; }
+        kp = toR(kp); ki = toR(ki); kd = toR(kd);
         summax = std::fabs(value_of(regime, p.knob("summax"), p.knob("lim_e"))); summin = -std::fabs(value_of(regime, p.knob("summin"), p.knob("lim_e")));
         double o1 = value_of(regime, p.knob("outmax"), p.knob("lim_e")), o2 = value_of(regime, p.knob("outmin"), p.knob("lim_e"));
         outmax = std::max(o1, o2); outmin = std::min(o1, o2);
@@ -476,6 +486,7 @@ struct PidSim
                 }
                 if (regime == 0) { setp = std::floor(setp * 8) / 8; if (setp > 64) setp = 64; if (setp < -64) setp = -64; }
                 else if (!(std::fabs(setp) <= 1e6)) setp = setp > 0 ? 1e6 : -1e6;
+                setp = toR(setp);
                 break;
             }
             case P_RETUNE:
@@ -517,6 +528,7 @@ struct PidSim
                 fault_kind = 1 + (int)(mag64(o.a[0]) % 5); fault_left = 1 + (int)(mag64(o.a[1]) % 12);
                 fault_val = regime == 0 ? (mag64(o.a[2]) & 1 ? 64.0 : -64.0) * (fault_kind == 3 ? 1 : 0.5) : value_of(1, o.a[2], o.a[3]);
                 if (regime == 1 && std::fabs(fault_val) > 1e6) fault_val = 1e6;
+                fault_val = toR(fault_val);
                 break;
             case P_WPID:
                 if (ctype == 2)
@@ -542,22 +554,22 @@ struct TfSim
 {
     Ctx &c;
     explicit TfSim(Ctx &c_) : c(c_) {}
-    struct F { a_tf tf; double *in = nullptr, *out = nullptr; };
+    struct F { a_tf tf; R *in = nullptr, *out = nullptr; };
     unsigned nn = 1, dn = 0;
-    double *num = nullptr, *den = nullptr;
+    R *num = nullptr, *den = nullptr;
     F M, Y, L, D, MM; // main, second input, linear combination, delayed, and one driven through the C++ members
     int la = 1, lb = 1; unsigned delay = 1;
     std::deque<double> dq;
     // reference state: explicit delay lines (newest first), exactly what the documented difference equation needs
     std::vector<long double> xs, ys, xs2, ys2;
-    bool exact = true, shift_valid = true;
+    bool exact = true, shift_valid = true, overflowed = false;
     std::vector<long double> outM; // reference outputs of the main filter since the last point at which the delayed replica was in step
 
     bool null_for_order0 = false; // an order-0 side is given a NULL history pointer (there is nothing to store)
     void mk(F &f)
     {
-        f.in = (nn == 0 && null_for_order0) ? nullptr : (double *)SA.halloc(nn * sizeof(double));
-        f.out = (dn == 0 && null_for_order0) ? nullptr : (double *)SA.halloc(dn * sizeof(double));
+        f.in = (nn == 0 && null_for_order0) ? nullptr : (R *)SA.halloc(nn * sizeof(R));
+        f.out = (dn == 0 && null_for_order0) ? nullptr : (R *)SA.halloc(dn * sizeof(R));
         for (unsigned i = 0; i < nn; ++i) f.in[i] = 777.5;
         for (unsigned i = 0; i < dn; ++i) f.out[i] = -333.25; // init must clear them
         c.site("a_tf_init");
@@ -594,12 +606,14 @@ struct TfSim
         double xd = 0; if (dq.size() > delay) { xd = dq.front(); dq.pop_front(); }
         double const yd = a_tf_iter(&D.tf, xd);
         double const ymm = MM.tf(x); // a_tf::operator()
+        // an unstable filter eventually leaves the range of R; from there on nothing is claimed ("magnitudes small enough that nothing overflows")
+        if (overflowed || !std::isfinite(ym) || std::fabs(ym) > (R_IS_DOUBLE ? 1e290 : 1e30) || !std::isfinite(yy) || !std::isfinite(yl) || !std::isfinite(yd)) { if (!overflowed) c.st.add("probe.tf_left_representable_range"); overflowed = true; ++c.steps; return true; }
         if (bits_of(ymm) != bits_of(ym)) return c.fail("cxx-wrapper-disagrees", "a_tf_iter", "a_tf::operator() gives %.17g, a_tf_iter %.17g on the same history", ymm, ym);
         ++c.steps;
         xs.resize(nn, 0); xs2.resize(nn, 0); ys.resize(dn, 0); ys2.resize(dn, 0);
         long double const rm = ref_step(xs, ys, x), ry = ref_step(xs2, ys2, x2);
-        if (exact && (fabsl(rm) >= 0x1p45L || fabsl(ry) >= 0x1p45L || !std::isfinite((double)rm))) { exact = false; c.st.add("probe.tf_left_exact_range"); }
-        if (!(fabsl((long double)ym - w1) <= sc * 0x1p-40L)) return c.fail("difference-equation-violated", "a_tf_iter", "output %.17g, sum over the delay lines gives %.17Lg", ym, w1);
+        if (exact && (fabsl(rm) >= ldexpl(1, MANT - 8) || fabsl(ry) >= ldexpl(1, MANT - 8) || !std::isfinite((double)rm))) { exact = false; c.st.add("probe.tf_left_exact_range"); }
+        if (!(fabsl((long double)ym - w1) <= sc * ldexpl(1, -(MANT - 13)) || !std::isfinite((double)w1) || fabsl(w1) > (R_IS_DOUBLE ? 1e300L : 1e37L))) return c.fail("difference-equation-violated", "a_tf_iter", "output %.17g, sum over the delay lines gives %.17Lg", ym, w1);
         if (nn && M.in[0] != x) return c.fail("difference-equation-violated", "a_tf_iter", "newest input not at the front of the input delay line");
         if (dn && M.out[0] != ym) return c.fail("difference-equation-violated", "a_tf_iter", "newest output not at the front of the output delay line");
         if (!cmp(ym, rm, "difference-equation-violated", "main filter")) return false;
@@ -619,7 +633,7 @@ struct TfSim
     {
         c.site("a_tf_zero");
         a_tf_zero(&M.tf); a_tf_zero(&Y.tf); a_tf_zero(&L.tf); a_tf_zero(&D.tf); MM.tf.zero();
-        dq.clear(); xs.assign(nn, 0); ys.assign(dn, 0); xs2.assign(nn, 0); ys2.assign(dn, 0); outM.clear(); exact = true; shift_valid = true;
+        dq.clear(); xs.assign(nn, 0); ys.assign(dn, 0); xs2.assign(nn, 0); ys2.assign(dn, 0); outM.clear(); exact = true; shift_valid = true; overflowed = false;
         c.st.add("fault.reset_zero");
     }
     void exec(Plan const &p)
@@ -628,9 +642,9 @@ struct TfSim
         nn = (unsigned)(mag64(p.knob("num_n", 1)) % 9); dn = (unsigned)(mag64(p.knob("den_n", 0)) % 9);
         la = (int)(p.knob("la", 1) % 5); lb = (int)(p.knob("lb", 1) % 5); delay = (unsigned)(mag64(p.knob("delay", 1)) % 6);
         uint64_t const cs = (uint64_t)p.knob("coefseed", 1);
-        num = (double *)SA.halloc(nn * sizeof(double)); den = (double *)SA.halloc(dn * sizeof(double));
-        for (unsigned i = 0; i < nn; ++i) num[i] = (double)((int64_t)(splitmix64(cs + i) % 17) - 8);
-        for (unsigned i = 0; i < dn; ++i) den[i] = (double)((int64_t)(splitmix64(cs + 100 + i) % 5) - 2);
+        num = (R *)SA.halloc(nn * sizeof(R)); den = (R *)SA.halloc(dn * sizeof(R));
+        for (unsigned i = 0; i < nn; ++i) num[i] = (R)((int64_t)(splitmix64(cs + i) % 17) - 8);
+        for (unsigned i = 0; i < dn; ++i) den[i] = (R)((int64_t)(splitmix64(cs + 100 + i) % 5) - 2);
         if (nn == 0) c.st.add("probe.tf_numerator_order_zero");
         if (dn == 0) c.st.add("probe.tf_denominator_order_zero");
         null_for_order0 = p.knob("null0", 0) != 0;
@@ -638,7 +652,7 @@ struct TfSim
         // the objects are NOT zero-initialised by the caller: every field must be set by init
         for (F *f : {&M, &Y, &L, &D, &MM}) memset(&f->tf, 0x5A, sizeof f->tf);
         mk(M); mk(Y); mk(L); mk(D);
-        MM.in = (nn == 0 && null_for_order0) ? nullptr : (double *)SA.halloc(nn * sizeof(double)); MM.out = (dn == 0 && null_for_order0) ? nullptr : (double *)SA.halloc(dn * sizeof(double));
+        MM.in = (nn == 0 && null_for_order0) ? nullptr : (R *)SA.halloc(nn * sizeof(R)); MM.out = (dn == 0 && null_for_order0) ? nullptr : (R *)SA.halloc(dn * sizeof(R));
         for (unsigned i = 0; i < nn; ++i) MM.in[i] = 1.5;
         for (unsigned i = 0; i < dn; ++i) MM.out[i] = -2.5;
         if (p.knob("member_init", 0)) MM.tf.init(nn, num, MM.in, dn, den, MM.out); // a_tf::init
@@ -660,12 +674,12 @@ struct TfSim
                 bool const isnum = o.kind == F_SETNUM;
                 unsigned const newn = (unsigned)(mag64(o.a[0]) % 9);
                 uint64_t const cs2 = mag64(o.a[1]);
-                double *co = (double *)SA.halloc(newn * sizeof(double));
-                for (unsigned i = 0; i < newn; ++i) co[i] = isnum ? (double)((int64_t)(splitmix64(cs2 + i) % 17) - 8) : (double)((int64_t)(splitmix64(cs2 + 100 + i) % 5) - 2);
+                R *co = (R *)SA.halloc(newn * sizeof(R));
+                for (unsigned i = 0; i < newn; ++i) co[i] = isnum ? (R)((int64_t)(splitmix64(cs2 + i) % 17) - 8) : (R)((int64_t)(splitmix64(cs2 + 100 + i) % 5) - 2);
                 F *all[5] = {&M, &Y, &L, &D, &MM};
                 for (F *f : all)
                 {
-                    double *line = (newn == 0 && null_for_order0) ? nullptr : (double *)SA.halloc(newn * sizeof(double));
+                    R *line = (newn == 0 && null_for_order0) ? nullptr : (R *)SA.halloc(newn * sizeof(R));
                     for (unsigned i = 0; i < newn; ++i) line[i] = 55.5; // must be cleared by the call
                     if (isnum) { c.site("a_tf_set_num"); if (f == &MM) f->tf.set_num(newn, co, line); else a_tf_set_num(&f->tf, newn, co, line); if (f->in) SA.hfree(f->in); f->in = line; }
                     else { c.site("a_tf_set_den"); if (f == &MM) f->tf.set_den(newn, co, line); else a_tf_set_den(&f->tf, newn, co, line); if (f->out) SA.hfree(f->out); f->out = line; }
@@ -711,7 +725,7 @@ struct RcSim
         // one-step difference equations from the filters' own previous state
         long double const wl = (1 - (long double)alpha) * pl + (long double)alpha * x;
         long double const wh = (long double)alpha * ((long double)ph + x - pin);
-        if (regime == 0 && since_reset <= 16)
+        if (regime == 0 && since_reset <= (R_IS_DOUBLE ? 16u : 7u))
         {
             rl = (1 - (long double)alpha) * rl + (long double)alpha * x; rh = (long double)alpha * (rh + x - rin); rin = x;
             if ((long double)ol != rl) return c.fail("difference-equation-violated", "a_lpf_iter", "low-pass output %.17g, recurrence from zero state gives %.17Lg (exact regime)", ol, rl);
@@ -730,6 +744,7 @@ struct RcSim
     }
     void reinit(double a)
     {
+        a = toR(a);
         alpha = a;
         c.site("a_lpf_init"); a_lpf_init(lp, a);
         c.site("a_hpf_init"); a_hpf_init(hp, a);
@@ -750,7 +765,7 @@ struct RcSim
             c.opi = (int)i;
             c.st.add(std::string("op.rc.") + CTL_OP_NAMES[o.kind]);
             c.logf("op %zu %s a=%lld,%lld,%lld [alpha=%g lp=%g hp=%g]\n", i, CTL_OP_NAMES[o.kind], (long long)o.a[0], (long long)o.a[1], (long long)o.a[2], alpha, lp->output, hp->output);
-            auto inval = [&](int64_t m, int64_t e) { return regime == 0 ? (double)((int64_t)(mag64(m) % 129) - 64) : value_of(1, m, e); };
+            auto inval = [&](int64_t m, int64_t e) { return toR(regime == 0 ? (double)((int64_t)(mag64(m) % 129) - 64) : value_of(1, m, e)); };
             switch (o.kind)
             {
             case F_INPUT: feed(inval(o.a[0], o.a[1])); break;
@@ -781,7 +796,7 @@ struct RcSim
                 if (!c.ok()) break;
                 double const scale = std::max(std::max(std::fabs(cst), dl0), h0);
                 double const rate = std::min(alpha, 1 - alpha);
-                double const slack = (64 + (rate > 0 ? 8 / rate : 0)) * ulp_of(scale) + DBL_MIN; // rounding errors of a contraction accumulate to at most ulp/(1-rate)
+                double const slack = (64 + (rate > 0 ? 8 / rate : 0)) * ulp_of(scale) + (R_IS_DOUBLE ? DBL_MIN : (double)FLT_MIN); // rounding errors of a contraction accumulate to at most ulp/(1-rate)
                 if (alpha > 0 && std::fabs(lp->output - cst) > tol * dl0 + slack) c.fail("lowpass-did-not-settle", "a_lpf_iter", "%zu samples after the input became constant %.17g the output is still %.17g away (started %.17g away)", K, cst, std::fabs(lp->output - cst), dl0);
                 else if (alpha < 1 && std::fabs(hp->output) > tol * h0 + slack) c.fail("highpass-did-not-decay", "a_hpf_iter", "%zu samples after the input became constant the output is still %.17g (was %.17g)", K, hp->output, h0);
                 c.st.add("probe.settling_checked");
@@ -792,8 +807,9 @@ struct RcSim
                 // coefficient generators: fc, ts log-uniform over 24 decades
                 // fc, ts log-uniform over 24 decades; every third call over (almost) the whole positive double range
                 bool const wide = (mag64(o.a[3]) % 3) == 0;
-                double const fc = wide ? std::pow(10.0, (double)((int64_t)(mag64(o.a[0]) % 6001) - 3000) / 10.0) : std::pow(10.0, (double)((int64_t)(mag64(o.a[0]) % 2401) - 1200) / 100.0);
-                double const ts = wide ? std::pow(10.0, (double)((int64_t)(mag64(o.a[1]) % 6001) - 3000) / 10.0) : std::pow(10.0, (double)((int64_t)(mag64(o.a[1]) % 2401) - 1200) / 100.0);
+                double const wexp = R_IS_DOUBLE ? 300.0 : 37.0; // decimal exponent range of R
+                double const fc = toR(wide ? std::pow(10.0, ((double)((int64_t)(mag64(o.a[0]) % 6001) - 3000) / 3000.0) * wexp) : std::pow(10.0, (double)((int64_t)(mag64(o.a[0]) % 2401) - 1200) / 100.0));
+                double const ts = toR(wide ? std::pow(10.0, ((double)((int64_t)(mag64(o.a[1]) % 6001) - 3000) / 3000.0) * wexp) : std::pow(10.0, (double)((int64_t)(mag64(o.a[1]) % 2401) - 1200) / 100.0));
                 if (wide) c.st.add("probe.gen_extreme_arguments");
                 c.site("a_lpf_gen"); double const al = a_lpf_gen(fc, ts);
                 c.site("a_hpf_gen"); double const ah = a_hpf_gen(fc, ts);
@@ -802,7 +818,7 @@ struct RcSim
                 { // initialiser macros of the headers
                     a_lpf ml = A_LPF_2(fc, ts); a_hpf mh = A_HPF_2(fc, ts); a_lpf m1 = A_LPF_1(al); a_hpf h1 = A_HPF_1(ah);
                     // the same through expression arguments (sums, differences, conditionals)
-                    double const t1 = ts * 3, t0 = ts * 2, f1 = fc / 2;
+                    double const t1 = toR(ts * 3), t0 = toR(ts * 2), f1 = toR(fc / 2);
                     bool const pick = (mag64(o.a[2]) & 1) != 0;
                     double const e1 = A_LPF_GEN(f1 + f1, t1 - t0), e2 = A_HPF_GEN(f1 + f1, t1 - t0), e3 = A_LPF_GEN(pick ? fc : fc, pick ? ts : ts), e4 = A_HPF_GEN(pick ? fc : fc, pick ? ts : ts);
                     double const x1 = a_lpf_gen(f1 + f1, t1 - t0), x2 = a_hpf_gen(f1 + f1, t1 - t0);
@@ -812,11 +828,11 @@ struct RcSim
                 }
                 if (!(al >= 0 && al <= 1)) { c.fail("coefficient-outside-unit-interval", "a_lpf_gen", "a_lpf_gen(%g, %g) = %.17g", fc, ts, al); break; }
                 if (!(ah >= 0 && ah <= 1)) { c.fail("coefficient-outside-unit-interval", "a_hpf_gen", "a_hpf_gen(%g, %g) = %.17g", fc, ts, ah); break; }
-                double const prod = fc * ts;
+                double const prod = fc * ts; // computed in double from the R-rounded arguments
                 if (prod >= 1e-12 && prod <= 1e12)
                 {
-                    if (!(al > 0 && al < 1)) { c.fail("coefficient-not-strictly-inside", "a_lpf_gen", "fc*ts = %g but a_lpf_gen = %.17g", prod, al); break; }
-                    if (!(ah > 0 && ah < 1)) { c.fail("coefficient-not-strictly-inside", "a_hpf_gen", "fc*ts = %g but a_hpf_gen = %.17g", prod, ah); break; }
+                    if (R_IS_DOUBLE ? !(al > 0 && al < 1) : (prod >= 1e-5 && prod <= 1e5 && !(al > 0 && al < 1))) { c.fail("coefficient-not-strictly-inside", "a_lpf_gen", "fc*ts = %g but a_lpf_gen = %.17g", prod, al); break; }
+                    if (R_IS_DOUBLE ? !(ah > 0 && ah < 1) : (prod >= 1e-5 && prod <= 1e5 && !(ah > 0 && ah < 1))) { c.fail("coefficient-not-strictly-inside", "a_hpf_gen", "fc*ts = %g but a_hpf_gen = %.17g", prod, ah); break; }
                     c.st.add("probe.gen_strict_interior_checked");
                 }
                 // the two are complementary descriptions of the same RC constant
@@ -841,6 +857,9 @@ struct CtlEngine : Engine
         (void)tier;
         Rng r(seed);
         Plan p; p.engine = "ctl"; p.prop = prop; p.seed = seed;
+#ifdef SIM_ALT_CONFIG
+        p.set("build_alt", 1); // this plan belongs to the build in which a_real is float (-DA_SIZE_REAL=4)
+#endif
         if (prop == "C12")
         {
             p.set("sys", 0);
